@@ -16,6 +16,11 @@ pub mod serde_json {
     pub mod error { pub struct Error { pub x: u8 } }
     pub use error::Error;
     // serialising a plain record cannot fail (ASSUMED); the bytes are a function of the value
+    #[verifier::external_body] pub fn from_str<T>(s: &str) -> (r: Result<T, Error>)
+        ensures r matches Ok(v) ==> json_parse::<T>(str_bytes(s@)) == Some(v), r is Err ==> json_parse::<T>(str_bytes(s@)) is None { unimplemented!() }
+    // from_reader on a freshly opened file: decodes the whole content
+    #[verifier::external_body] pub fn from_reader<T>(f: fs::File, Tracked(w): Tracked<&mut World>) -> (r: Result<T, Error>)
+        ensures *final(w) == *old(w), r matches Ok(v) ==> json_parse::<T>(old(w).fs[f.p]) == Some(v), r is Err ==> json_parse::<T>(old(w).fs[f.p]) is None { unimplemented!() }
     #[verifier::external_body] pub fn to_vec<T>(v: &T) -> (r: Result<Vec<u8>, Error>) ensures r matches Ok(b) && b@ == json_enc(*v) { unimplemented!() }
 }
 pub mod server {
@@ -89,6 +94,13 @@ impl From<serde_json::error::Error> for MonorailError { #[verifier::external_bod
 // ---------------- paths: a path is its string ----------------
 pub uninterp spec fn path_join(a: Seq<char>, b: Seq<char>) -> Seq<char>;
 pub trait PathLike { spec fn pview(&self) -> Seq<char>; }
+pub trait BytesLike { spec fn bytes(&self) -> Seq<u8>; }
+impl BytesLike for Vec<u8> { open spec fn bytes(&self) -> Seq<u8> { self@ } }
+impl BytesLike for [u8] { open spec fn bytes(&self) -> Seq<u8> { self@ } }
+impl BytesLike for String { open spec fn bytes(&self) -> Seq<u8> { str_bytes(self@) } }
+impl<'a, T: BytesLike + ?Sized> BytesLike for &'a T { open spec fn bytes(&self) -> Seq<u8> { (**self).bytes() } }
+// the UTF-8 encoding of a string (uninterpreted)
+pub uninterp spec fn str_bytes(s: Seq<char>) -> Seq<u8>;
 impl PathLike for String { open spec fn pview(&self) -> Seq<char> { self@ } }
 impl PathLike for str { open spec fn pview(&self) -> Seq<char> { self@ } }
 impl<'a, T: PathLike + ?Sized> PathLike for &'a T { open spec fn pview(&self) -> Seq<char> { (**self).pview() } }
@@ -379,8 +391,8 @@ pub mod fs {
         #[verifier::external_body] pub fn create_new(self, b: bool) -> (r: Self) ensures r == (OpenOptions { cn: b, ..self }) { unimplemented!() }
         // open(2): creates an empty file (create / create_new), truncates an existing one (truncate); fails without an
         // environmental fault exactly when create_new meets an existing file or neither create flag is set and the file is missing
-        #[verifier::external_body] pub fn open<P: PathLike>(self, p: &P, Tracked(w): Tracked<&mut World>) -> (r: Result<File, std::io::Error>)
-            requires recoverable(*old(w)),
+        #[verifier::external_body] pub fn open<P: PathLike + ?Sized>(self, p: &P, Tracked(w): Tracked<&mut World>) -> (r: Result<File, std::io::Error>)
+            requires self.wr ==> recoverable(*old(w)),
             ensures
                 final(w).ptr == old(w).ptr, final(w).last == old(w).last, final(w).ptr_new == old(w).ptr_new, final(w).io_faults >= old(w).io_faults,
                 r matches Ok(f) ==> f.p == p.pview() && final(w).io_faults == old(w).io_faults && final(w).fs == old(w).fs.insert(p.pview(),
@@ -404,6 +416,11 @@ pub mod fs {
                 exists|k: int| 0 <= k <= data@.len() && #[trigger] final(w).fs[old(self).p] == old(w).fs[old(self).p] + data@.take(k),
         { unimplemented!() }
     }
+    #[verifier::external_body] pub fn read<P: PathLike + ?Sized>(p: &P, Tracked(w): Tracked<&mut World>) -> (r: Result<Vec<u8>, std::io::Error>)
+        ensures final(w).fs == old(w).fs, final(w).io_faults >= old(w).io_faults,
+            r matches Ok(v) ==> old(w).fs.dom().contains(p.pview()) && v@ == old(w).fs[p.pview()] && final(w).io_faults == old(w).io_faults,
+            (r is Err && final(w).io_faults == old(w).io_faults) ==> !old(w).fs.dom().contains(p.pview()),
+    { unimplemented!() }
     // rename(2): atomic replacement
     #[verifier::external_body] pub fn rename<P: PathLike, Q: PathLike>(from: &P, to: &Q, Tracked(w): Tracked<&mut World>) -> (r: Result<(), std::io::Error>)
         requires recoverable(*old(w)),
@@ -411,5 +428,65 @@ pub mod fs {
             final(w).ptr == old(w).ptr, final(w).last == old(w).last, final(w).ptr_new == old(w).ptr_new,
             r is Ok ==> old(w).fs.dom().contains(from.pview()) && final(w).fs == old(w).fs.remove(from.pview()).insert(to.pview(), old(w).fs[from.pview()]) && final(w).io_faults == old(w).io_faults,
             r is Err ==> final(w).fs == old(w).fs && (final(w).io_faults == old(w).io_faults + 1 || (final(w).io_faults == old(w).io_faults && !old(w).fs.dom().contains(from.pview()))),
+    { unimplemented!() }
+}
+
+// ---------------- reading files, hashing, decoding (units config, index) ----------------
+pub uninterp spec fn sha256(b: Seq<u8>) -> Seq<u8>;
+pub uninterp spec fn hex(d: Seq<u8>) -> Seq<char>;
+pub uninterp spec fn utf8_ok(b: Seq<u8>) -> bool;
+pub uninterp spec fn json_parse<T>(b: Seq<u8>) -> Option<T>;   // serde_json: a function of the input bytes only
+pub uninterp spec fn path_exists_spec(p: Seq<char>, fs: Map<Seq<char>, Seq<u8>>) -> bool;
+impl fs::File {
+    // File::open(p): read-only open; fails without an environmental fault exactly when there is no file
+    #[verifier::external_body] pub fn open<P: PathLike + ?Sized>(p: &P, Tracked(w): Tracked<&mut World>) -> (r: Result<fs::File, std::io::Error>)
+        ensures final(w).fs == old(w).fs, final(w).io_faults >= old(w).io_faults,
+            r matches Ok(f) ==> f.p == p.pview() && old(w).fs.dom().contains(p.pview()) && final(w).io_faults == old(w).io_faults,
+            (r is Err && final(w).io_faults == old(w).io_faults) ==> !old(w).fs.dom().contains(p.pview()),
+    { unimplemented!() }
+    // std::io::Read::read_to_end on a freshly opened file: appends the whole content
+    #[verifier::external_body] pub fn read_to_end(&mut self, buf: &mut Vec<u8>, Tracked(w): Tracked<&mut World>) -> (r: Result<usize, std::io::Error>)
+        ensures final(w).fs == old(w).fs, final(self).p == old(self).p, final(w).io_faults >= old(w).io_faults,
+            r is Ok ==> final(buf)@ == old(buf)@ + old(w).fs[old(self).p] && final(w).io_faults == old(w).io_faults,
+            r is Err ==> final(w).io_faults > old(w).io_faults,
+    { unimplemented!() }
+}
+impl path::Path {
+    #[verifier::external_body] pub fn exists(&self, Tracked(w): Tracked<&mut World>) -> (r: bool)
+        ensures *final(w) == *old(w), r == old(w).fs.dom().contains(self@) { unimplemented!() }
+}
+pub mod strs {
+    use vstd::prelude::*;
+    use super::*;
+    // std::str::from_utf8 (R17 re-roots the path)
+    #[verifier::external_body] pub fn from_utf8(b: &[u8]) -> (r: Result<&str, std::str::Utf8Error>)
+        ensures r is Ok <==> utf8_ok(b@), r matches Ok(s) ==> str_bytes(s@) == b@ { unimplemented!() }
+}
+pub mod sha2 {
+    use vstd::prelude::*;
+    use super::*;
+    pub struct Sha256 { pub ghost fed: Seq<u8> }
+    pub struct Output { pub ghost d: Seq<u8> }
+    impl Sha256 {
+        #[verifier::external_body] pub fn new() -> (r: Sha256) ensures r.fed == Seq::<u8>::empty() { unimplemented!() }
+        #[verifier::external_body] pub fn update<B: BytesLike>(&mut self, b: B) ensures final(self).fed == old(self).fed + b.bytes() { unimplemented!() }
+        #[verifier::external_body] pub fn finalize(self) -> (r: Output) ensures r.d == sha256(self.fed) { unimplemented!() }
+        #[verifier::external_body] pub fn finalize_reset(&mut self) -> (r: Output) ensures r.d == sha256(old(self).fed), final(self).fed == Seq::<u8>::empty() { unimplemented!() }
+    }
+    // R12 target for `format!("{:x}", digest)`: lower-case hex of the digest
+    #[verifier::external_body] pub fn hex_of(o: Output) -> (r: String) ensures r@ == hex(o.d) { unimplemented!() }
+}
+
+// std::io::BufReader over a file: fill_buf returns SOME non-empty prefix of what remains (std's real contract: at most the
+// internal buffer, 8 KiB by default), not the whole file
+pub struct BufReader { pub ghost p: Seq<char>, pub ghost pos: int }
+impl BufReader {
+    #[verifier::external_body] pub fn new(f: fs::File) -> (r: BufReader) ensures r.p == f.p, r.pos == 0 { unimplemented!() }
+    #[verifier::external_body] pub fn fill_buf(&mut self, Tracked(w): Tracked<&mut World>) -> (r: Result<&[u8], std::io::Error>)
+        ensures final(w).fs == old(w).fs, final(self).p == old(self).p, final(self).pos == old(self).pos, final(w).io_faults >= old(w).io_faults,
+            r matches Ok(b) ==> final(w).io_faults == old(w).io_faults && old(self).pos + b@.len() <= old(w).fs[old(self).p].len()
+                && b@ == old(w).fs[old(self).p].subrange(old(self).pos, old(self).pos + b@.len())
+                && (old(self).pos < old(w).fs[old(self).p].len() ==> b@.len() > 0),
+            r is Err ==> final(w).io_faults > old(w).io_faults,
     { unimplemented!() }
 }
